@@ -145,6 +145,9 @@ def run(run, tier, replay=None):
             if "[assignment]" in e and src.startswith("cookies[") and "/api/" in e:
                 if run.known_finding("mypy_cookie_optional", f"tree '{m['label']}': {e[:200]} | {src}"):
                     continue
+            if "[assignment]" in e and "/models/" in e and src.startswith(e.split("/models/")[1].split(".py")[0][:0] or "") and " = str(self." in src and 'variable has type "Unset | bytes"' in e:
+                if run.known_finding("mypy_uuid_multipart", f"tree '{m['label']}': {e[:200]} | {src}"):
+                    continue
             rest.append(e)
         m["errors"] = rest
         if m["errors"]:
